@@ -6,7 +6,7 @@ opts (all optional):
   phases: phases to snapshot (default all four); want_canon: record canonical state at 'updated';
   fault: [step, phase] -> the observer raises InjectedFault there; plain: build with library classes;
   presim: number of earlier simulate() calls on the same object before the observed one;
-  resume_from: k -> simulate(max_time=k) first, the observed run resumes it (state/log initialisation off);
+  resume_from: k -> simulate(max_time=k) first, the observed run resumes it (state/log initialisation off, or restart_flags=(state, log));
   unit_time: passed to simulate(); backward: observe backward_simulate() instead (options due, rev).
 """
 import traceback
@@ -138,7 +138,8 @@ def run(spec, opts=None, model=None, call=None):
         else:
             kw = sim_kwargs(opts)
             if opts.get("resume_from") is not None:
-                kw.update(initialize_state_info=False, initialize_log_info=False)
+                fl = opts.get("restart_flags") or (False, False)
+                kw.update(initialize_state_info=bool(fl[0]), initialize_log_info=bool(fl[1]))
             if opts.get("backward"):
                 # the observed run is the inner run of backward_simulate (dependencies reversed while it runs)
                 ex.m.project.backward_simulate(considering_due_time_of_tail_tasks=bool(opts.get("due")), reverse_log_information=bool(opts.get("rev", True)), **kw)
